@@ -1,7 +1,7 @@
 package main
 
 func init() {
-	for _, id := range []string{"C01", "C02", "C04", "C05", "C06", "C07", "C08", "C09", "C10", "C11", "C14", "C15", "C16", "C19", "C20"} {
+	for _, id := range []string{"C04", "C05", "C06", "C07", "C09", "C10", "C11", "C14", "C15", "C16", "C19", "C20"} {
 		notApplicable[id] = "not yet claimed: contracts for this property are still being written (see DESIGN.md); no check is registered"
 	}
 	notApplicable["C12"] = "command/response matching lives in goroutine, channel and timer interplay (onActiveEvent/onActiveRespondEvent/write); no sequential function contract within the verifier's subset carries the claim"
@@ -34,5 +34,50 @@ func init() {
 		Undecided: []string{"String()/Encode() rendering of parsed values (thorough tier adds them as roots when modelled)",
 			"receiver-independence is decided only where a functional postcondition (C07/C08/C17 clauses) pins every field"},
 		Assume: []string{"user hooks (CustomAdditionContentFunc, ParamParseBeforeFunc) are nil: the default configuration"},
+	})
+}
+
+func init() {
+	registerProp(&PropDef{
+		ID:    "C08",
+		Title: "Location reports are decoded as the standard prescribes",
+		Roots: []string{
+			"model.(*AlarmSignDetails).parse", "model.(*StatusSignDetails).parse", "model.(*T0x0200LocationItem).parse",
+			"model.(*T0x0200AdditionDetails).parseExtendVehicleStatus", "model.(*T0x0200AdditionDetails).parseIOStatus",
+			"model.(*T0x0200AdditionDetails).decode", "model.(*T0x0200AdditionDetails).parse",
+			"utils.BCD2Time",
+		},
+		Decided: "offsets and byte order of the 28-byte base block, the BCD time rendering, each of the 32 alarm flags, 21 single-bit status flags, " +
+			"15 extended-vehicle-signal flags and 2 IO flags as 'field is true exactly when its bit is set', for all inputs and any prior receiver state",
+		Undecided: []string{"the two-bit Cargo field is not claimed (the property covers single-bit flags)"},
+	})
+}
+
+func init() {
+	registerProp(&PropDef{
+		ID:    "C02",
+		Title: "Frame validation: exactly the well-formed frames are accepted",
+		Roots: []string{
+			"jt808.unescape", "lemma:jt808.ecZero", "lemma:jt808.ecBound", "framelemma:jt808.ec", "framelemma:utils.xorfold",
+			"jt808.(*BodyProperty).decode", "jt808.(*Header).decode", "jt808.(*JTMessage).Decode",
+			"utils.CreateVerifyCode", "utils.Bcd2Dec", "utils.bcdConvert", "utils.nibbleToHexChar",
+		},
+		Decided: "unescape accepts exactly the strings with both delimiters and valid escape pairs (one tolerated trailing 0x7d) and returns the unescaped payload " +
+			"(content clause over a recursive counting function, two induction lemmas); Header.decode / BodyProperty.decode accept exactly complete headers and " +
+			"return every field as the standard lays it out; Decode composes them with the XOR and length checks; Bcd2Dec renders hex digits",
+		Undecided: []string{"for frames that contain escape pairs the field clauses of Decode are stated over the unescaped payload returned by unescape (whose content clause is proved), not re-expressed over the raw frame"},
+	})
+	registerProp(&PropDef{
+		ID:    "C01",
+		Title: "Frame encode/decode round trip and delimiter transparency",
+		Roots: []string{
+			"jt808.escape", "lemma:jt808.scBound", "jt808.unescape", "lemma:jt808.ecZero", "lemma:jt808.ecBound",
+			"framelemma:jt808.ec", "framelemma:jt808.sc", "framelemma:utils.xorfold",
+			"jt808.(*BodyProperty).encode", "jt808.(*BodyProperty).decode", "jt808.(*Header).Encode", "jt808.(*Header).decode",
+			"jt808.(*JTMessage).Decode", "utils.CreateVerifyCode",
+		},
+		Decided: "escape: 0x7e occurs only as first and last byte, every input byte is placed (plain or as its pair) at the index given by the counting function, length; " +
+			"unescape: inverse content clause; property-word bit layout of encode/decode; Header.Encode lays out id, property word, version byte, phone, serial, body, XOR and escapes",
+		Undecided: []string{"the composition unescape(escape(d)) = d links the two counting functions by an induction over both arrays; see DESIGN.md for its status"},
 	})
 }
